@@ -201,7 +201,8 @@ pub fn write_float_scientific<const FORMAT: u128>(
     options: &Options,
 ) -> usize {
     // PRECONDITIONS
-    debug_assert!(bytes.len() >= BUFFER_SIZE);
+    // NOTE: The sign may already have taken 1 byte of a `BUFFER_SIZE` buffer.
+    debug_assert!(bytes.len() >= BUFFER_SIZE - 1);
 
     // Config options.
     let format = NumberFormat::<{ FORMAT }> {};
@@ -276,7 +277,8 @@ pub fn write_float_nonscientific<const FORMAT: u128>(
     options: &Options,
 ) -> usize {
     // PRECONDITIONS
-    debug_assert!(bytes.len() >= BUFFER_SIZE);
+    // NOTE: The sign may already have taken 1 byte of a `BUFFER_SIZE` buffer.
+    debug_assert!(bytes.len() >= BUFFER_SIZE - 1);
 
     // Config options.
     let format = NumberFormat::<{ FORMAT }> {};
